@@ -53,11 +53,12 @@ var c09Descs = []string{
 }
 
 func c09Opts(r *rng) genOpts {
+	start, days := genSpan(r, 3, 120)
 	return genOpts{
 		nAccounts: r.rangeInt(5, 10), nTxn: r.rangeInt(2, 16),
 		commodities: pick(r, c09Coms), prices: true, accruals: r.chance(40), perf: r.chance(60),
 		assertions: true, closes: r.chance(40),
-		startDate: time.Date(2020, 1, 1, 0, 0, 0, 0, time.UTC).AddDate(0, 0, r.intn(400)), days: r.rangeInt(3, 120),
+		startDate: start, days: days,
 		manyDec: r.chance(30),
 	}
 }
